@@ -665,10 +665,19 @@ def coq_eval2(ck, terms, chunk=300, timeout=900, jobs=16):
     import re
     from ..common import sh, COQ
     shards = []
-    for si in range(0, len(terms), chunk):
-        part = terms[si:si + chunk]
-        name = f'cases_{si // chunk:04d}'
-        body = ';\n'.join(f'({si + j}%nat, {c})' for j, c in enumerate(part))
+    # shards of at most `chunk` cases and about 120 kB of text (program cases are large, context cases small)
+    groups, cur, size = [], [], 0
+    for i, t in enumerate(terms):
+        if cur and (len(cur) >= chunk or size + len(t) > 120000):
+            groups.append(cur)
+            cur, size = [], 0
+        cur.append((i, t))
+        size += len(t)
+    if cur:
+        groups.append(cur)
+    for gi, part in enumerate(groups):
+        name = f'cases_{gi:04d}'
+        body = ';\n'.join(f'({i}%nat, {c})' for i, c in part)
         text = (HEADER + '\n'
                 f'Definition cases : list (nat * case12) := [\n{body}\n].\n'
                 'Definition bad_sound := map fst (filter (fun ic => negb (check12_sound (snd ic))) cases).\n'
